@@ -12,3 +12,4 @@ from . import document  # noqa: F401
 from . import serial  # noqa: F401
 from . import jsx  # noqa: F401
 from . import paths  # noqa: F401
+from . import equality  # noqa: F401
